@@ -352,8 +352,13 @@ func (x *Exec) viewsDisagree(d *document.Document, v V) (why string) {
 		case isTime && (e == nil || !e.Equal(exp)), !isTime && e != nil:
 			return "ExpiresAt"
 		}
-		switch ttl := d.TTL(); {
-		case !isTime && ttl != -1, isTime && exp.Before(time.Now().Add(-time.Second)) && ttl != 0, isTime && exp.After(time.Now().Add(time.Second)) && ttl <= 0:
+		// the clock is read before and after the call: an expiration before the first reading has passed for
+		// TTL too, one after the second reading (by more than TTL's millisecond granularity) has not
+		t0 := time.Now()
+		ttl := d.TTL()
+		t1 := time.Now()
+		switch {
+		case !isTime && ttl != -1, isTime && exp.Before(t0) && ttl != 0, isTime && exp.After(t1.Add(5*time.Millisecond)) && ttl <= 0:
 			return "TTL"
 		}
 	}
